@@ -37,6 +37,11 @@ pub enum Op {
     Hub(u16, u8, bool),
     RemoveEdge(u16),
     SetEdgeType(u16, bool),
+    ToggleEdgeType(u16),
+    /// add_vertex_with_phase (the shorthand for add_vertex + set_phase)
+    AddVertexWithPhase(u8, (i64, i64)),
+    /// overwrite a vertex's whole data record through vertex_data_mut
+    OverwriteData(u16, DataSpec),
     AddEdgeSmart(u16, u16, bool),
     /// add_edge_smart aimed at an existing edge (parallel-edge cases)
     SmartOnEdge(u16, bool),
@@ -343,8 +348,30 @@ fn compare<G: GraphLike + PartialEq>(m: &Model, im: &Impl<G>, step: &str) -> Res
     }
     // queries over all names incl. dead ones
     let top = g.vindex().max(vmax.map(|x| x + 1).unwrap_or(0)) + 2;
-    if top <= 40 {
-        for a in 0..top {
+    // all rows for small name ranges; otherwise the rows of a few vertices (extreme degrees,
+    // first and last name, two dead names) against every name
+    let rows: Vec<V> = if top <= 40 {
+        (0..top).collect()
+    } else {
+        let mut r: Vec<V> = vec![];
+        let live: Vec<V> = vset.iter().copied().collect();
+        if let Some(&v) = live.iter().max_by_key(|&&v| g.degree(v)) {
+            r.push(v);
+        }
+        if let Some(&v) = live.iter().min_by_key(|&&v| g.degree(v)) {
+            r.push(v);
+        }
+        r.extend(live.first().copied());
+        r.extend(live.last().copied());
+        r.extend(live.get(live.len() / 2).copied());
+        r.extend((0..top).filter(|a| !vset.contains(a)).take(2));
+        r.push(top - 1);
+        r.sort();
+        r.dedup();
+        r
+    };
+    {
+        for a in rows {
             if g.contains_vertex(a) != vset.contains(&a) {
                 return err(format!("contains_vertex({a}) = {}", g.contains_vertex(a)));
             }
@@ -360,6 +387,15 @@ fn compare<G: GraphLike + PartialEq>(m: &Model, im: &Impl<G>, step: &str) -> Res
                 }
                 if g.connected(a, b) != want.is_some() {
                     return err(format!("connected({a},{b})"));
+                }
+                if g.connected(b, a) != want.is_some() {
+                    return err(format!("connected({b},{a})"));
+                }
+                if let Some(et) = want {
+                    // the panicking accessor on an existing edge, both orientations
+                    if g.edge_type(a, b) != et || g.edge_type(b, a) != et {
+                        return err(format!("edge_type({a},{b})"));
+                    }
                 }
             }
         }
@@ -795,6 +831,51 @@ fn apply(w: &mut World, op: &Op, obs: &mut Obs) -> Result<Option<String>, String
                 } else {
                     im.g.set_edge_type(p, q, et)
                 }
+            });
+        }
+        Op::ToggleEdgeType(raw) => {
+            let keys: Vec<(Mid, Mid)> = w.m.edges.keys().copied().collect();
+            if keys.is_empty() {
+                return Ok(None);
+            }
+            let (x, y) = keys[idx(*raw, keys.len())];
+            let et = w.m.edges[&(x, y)];
+            w.m.edges.insert((x, y), if et == EType::N { EType::H } else { EType::N });
+            let flip = raw % 2 == 1;
+            both!(w, &what, |im| {
+                let (p, q) = (im.n(x), im.n(y));
+                if flip {
+                    im.g.toggle_edge_type(q, p)
+                } else {
+                    im.g.toggle_edge_type(p, q)
+                }
+            });
+        }
+        Op::AddVertexWithPhase(t, p) => {
+            let ty = vt(*t);
+            let ph = crate::oracle::diag::norm_phase((p.0, p.1.max(1)));
+            let mid = w.m.next;
+            w.m.next += 1;
+            w.m.verts.insert(
+                mid,
+                MV {
+                    ty,
+                    phase: ph,
+                    vars: vec![],
+                    qubit: 0.0,
+                    row: 0.0,
+                },
+            );
+            add_fresh(&mut w.v, mid, |g| g.add_vertex_with_phase(ty, to_qphase(ph)), &what)?;
+            add_fresh(&mut w.h, mid, |g| g.add_vertex_with_phase(ty, to_qphase(ph)), &what)?;
+        }
+        Op::OverwriteData(raw, d) => {
+            let Some(x) = w.m.pick(*raw) else { return Ok(None) };
+            let (mv, vd) = mk_data(d);
+            *w.m.verts.get_mut(&x).unwrap() = mv;
+            both!(w, &what, |im| {
+                let n = im.n(x);
+                *im.g.vertex_data_mut(n) = vd.clone();
             });
         }
         Op::AddEdgeSmart(a, b, h) => {
@@ -1237,6 +1318,9 @@ fn op_strategy() -> BoxedStrategy<Op> {
         1 => (r(), prop_oneof![0u8..4, 4u8..12, 16u8..28], any::<bool>()).prop_map(|(a, k, h)| Op::Hub(a, k, h)),
         3 => r().prop_map(Op::RemoveEdge),
         2 => (r(), any::<bool>()).prop_map(|(a, h)| Op::SetEdgeType(a, h)),
+        2 => r().prop_map(Op::ToggleEdgeType),
+        2 => (0u8..4, ph.clone()).prop_map(|(t, p)| Op::AddVertexWithPhase(t, p)),
+        1 => (r(), data_spec()).prop_map(|(a, d)| Op::OverwriteData(a, d)),
         4 => (r(), r(), any::<bool>()).prop_map(|(a, b, h)| Op::AddEdgeSmart(a, b, h)),
         3 => (r(), any::<bool>()).prop_map(|(a, h)| Op::SmartOnEdge(a, h)),
         2 => (r(), 0u8..4).prop_map(|(a, t)| Op::SetType(a, t)),
@@ -1272,7 +1356,7 @@ pub fn def(ctx: &Ctx) -> PropertyDef {
     let maxlen = t.pick(40, 150);
     PropertyDef {
         id: "C09",
-        rule: "histories of <=40 (150) operations of the public GraphLike interface with valid arguments resolved against a plain reference model (add vertex typed / with data / named: existing name, free name inside the range, beyond the range; remove vertex; add/remove edge; hub (k<=27 fresh leaves plus an edge to every other live vertex); set edge type; add_edge_smart incl. parallel edges and self-loops on Z/X; set type/phase/coords/vars; inputs/outputs edits; scalar and scalar-factor edits; pack(false|true); clone-and-continue; sub-graph; append; x_to_z; adjoint). After every step both backends are compared with the model (and hence with each other): counts == enumerations, vertex data, each edge once with s<=t, symmetric adjacency, contains_vertex/edge_type_opt/connected over all names incl. dead ones, inputs/outputs, scalar and factors, find_vertex/find_edge witnesses, components, vindex above every name, clone equal and independent, pack = order-preserving renaming. Non-trivial = the history re-uses a hole, packs after deletions, or inserts a name beyond the range. Distinct by hash of the history.",
+        rule: "histories of <=40 (150) operations of the public GraphLike interface with valid arguments resolved against a plain reference model (add vertex typed / with data / named: existing name, free name inside the range, beyond the range; remove vertex; add/remove edge; hub (k<=27 fresh leaves plus an edge to every other live vertex); set / toggle edge type; add_vertex_with_phase; whole-record overwrite through vertex_data_mut; add_edge_smart incl. parallel edges and self-loops on Z/X; set type/phase/coords/vars; inputs/outputs edits; scalar and scalar-factor edits; pack(false|true); clone-and-continue; sub-graph; append; x_to_z; adjoint). After every step both backends are compared with the model (and hence with each other): counts == enumerations, vertex data, each edge once with s<=t, symmetric adjacency, contains_vertex/edge_type_opt/edge_type/connected in both orientations over all names incl. dead ones (name ranges > 40: the rows of the extreme-degree, first, middle, last and two dead names), inputs/outputs, scalar and factors, find_vertex/find_edge witnesses, components, vindex above every name, clone equal and independent, pack = order-preserving renaming. Non-trivial = the history re-uses a hole, packs after deletions, or inserts a name beyond the range. Distinct by hash of the history.",
         assumptions: vec![
             "reference model written for the harness; add_edge_smart's documented case table is re-implemented in the model",
             "find_edge is probed with orientation-symmetric predicates (the hash backend enumerates both orientations)",
